@@ -13,6 +13,8 @@
 import KcacheModel.Life
 import KcacheModel.Props.C11
 import KcacheModel.Proofs.Life2
+import KcacheModel.Api
+import KcacheModel.Proofs.Api
 namespace KC.C12
 open KC KC.C11
 
@@ -139,6 +141,86 @@ theorem attach_anc (s : Life) (p : Nat) (hw : s.WF) (hp : p < s.len) (hlen : 0 <
 /-! non-vacuity: the 4-node example of C11 shuts down completely in 8 internal steps after closing the root -/
 example : ∃ s, C11.ex.run [.close 0, .stop 0, .stop 1, .stop 2, .stop 3, .finish 2, .finish 1, .finish 3, .finish 0] = some s ∧
     s.done 0 = true ∧ s.done 1 = true ∧ s.done 2 = true ∧ s.done 3 = true := ⟨_, rfl, by decide, by decide, by decide, by decide⟩
+
+/-! ### every API call returns a result or ErrNotRunning instead of blocking (model: Api.lean) -/
+
+/-- **no API call blocks**: whatever the component is doing — running, or shut down at any moment, before or
+after the call was issued — a caller blocked in its `select` can always take one of the two branches -/
+theorem call_never_stuck (s : Api) (i : Nat) (h : s.look i = some .offering) :
+    s.enabled (.accept i) = true ∨ s.enabled (.refuse i) = true := by
+  unfold Api.enabled
+  cases hr : s.running <;> simp [h]
+
+/-- … and a caller whose request was taken always finds its result (the result channel is buffered: the
+component never waits for the caller, the caller never waits for the component) -/
+theorem accepted_can_return (s : Api) (i : Nat) (h : s.look i = some .accepted) : s.enabled (.receive i) = true := by
+  simp [Api.enabled, h]
+
+/-- once the component has left its loop no request is taken any more: every later call returns ErrNotRunning -/
+theorem stopped_refuses (s : Api) (i : Nat) (h : s.running = false) :
+    s.enabled (.accept i) = false ∧ (s.look i = some .offering → s.enabled (.refuse i) = true) := by
+  constructor
+  · simp [Api.enabled, h]
+  · intro ho; simp [Api.enabled, h, ho]
+
+theorem stop_is_final (s : Api) (e : ApiEv) (h : s.running = false) : (s.step e).running = false := by
+  cases e <;> simp [Api.step, Api.set, h]
+
+/-- **bounded**: a call needs at most two more steps of its own, and each of them brings it closer to returning -/
+theorem call_progress (s : Api) (i : Nat) (e : ApiEv) (he : e = .accept i ∨ e = .refuse i ∨ e = .receive i)
+    (hen : s.enabled e = true) : (s.step e).todo i < s.todo i ∧ s.todo i ≤ 2 := by
+  rcases he with rfl | rfl | rfl
+  · simp only [Api.enabled, Bool.and_eq_true, beq_iff_eq] at hen
+    have h1 := look_set_self s i .accepted (by simp [hen.2])
+    have : ({ s.set i .accepted with served := s.served + 1 } : Api).look i = some .accepted := h1
+    simp [Api.todo, Api.step, this, hen.1, hen.2]
+  · simp only [Api.enabled, Bool.and_eq_true, beq_iff_eq, Bool.not_eq_true'] at hen
+    have h1 := look_set_self s i (.returned false) (by simp [hen.2])
+    simp [Api.todo, Api.step, h1, hen.1, hen.2]
+  · simp only [Api.enabled, beq_iff_eq] at hen
+    have h1 := look_set_self s i (.returned true) (by simp [hen])
+    simp [Api.todo, Api.step, h1, hen]
+
+/-- nothing another caller or the component does sets a call back -/
+theorem others_do_not_delay (s : Api) (i : Nat) (e : ApiEv) (hen : s.enabled e = true)
+    (hne : e ≠ .call i) : (s.step e).todo i ≤ s.todo i := by
+  cases e with
+  | call j =>
+    have hji : j ≠ i := fun h => hne (by rw [h])
+    have : ({ s with calls := (j, .offering) :: s.calls } : Api).look i = s.look i := by
+      simp [Api.look, lookL, hji]
+    simp only [Api.todo, Api.step, this]
+    exact Nat.le_refl _
+  | accept j =>
+    by_cases h : j = i
+    · subst h; exact Nat.le_of_lt (call_progress s j _ (Or.inl rfl) hen).1
+    · have := look_set_other s j i .accepted (fun e => h e.symm)
+      have h2 : ({ s.set j .accepted with served := s.served + 1 } : Api).look i = s.look i := this
+      have h3 : ({ s.set j .accepted with served := s.served + 1 } : Api).running = s.running := rfl
+      simp [Api.todo, Api.step, h2, h3]
+  | refuse j =>
+    by_cases h : j = i
+    · subst h; exact Nat.le_of_lt (call_progress s j _ (Or.inr (Or.inl rfl)) hen).1
+    · have := look_set_other s j i (.returned false) (fun e => h e.symm)
+      have h3 : (s.set j (.returned false)).running = s.running := rfl
+      simp [Api.todo, Api.step, this, h3]
+  | receive j =>
+    by_cases h : j = i
+    · subst h; exact Nat.le_of_lt (call_progress s j _ (Or.inr (Or.inr rfl)) hen).1
+    · have := look_set_other s j i (.returned true) (fun e => h e.symm)
+      have h3 : (s.set j (.returned true)).running = s.running := rfl
+      simp [Api.todo, Api.step, this, h3]
+  | stop =>
+    have : ({ s with running := false } : Api).look i = s.look i := rfl
+    simp only [Api.todo, Api.step, this]
+    cases s.look i with
+    | none => simp
+    | some c => cases c <;> simp <;> split <;> omega
+
+/-- non-vacuity: two callers race with a shutdown; one is served, the other gets ErrNotRunning -/
+example : ∃ s, ({} : Api).run [.call 1, .call 2, .accept 1, .stop, .refuse 2, .receive 1] = some s ∧
+    s.look 1 = some (.returned true) ∧ s.look 2 = some (.returned false) ∧ s.served = 1 := ⟨_, rfl, by decide, by decide, rfl⟩
+
 
 end KC.C12
 
